@@ -313,7 +313,8 @@ def _ldelta():
             for _ in range(n):
                 ws = gen_weights(rng, full, rng.choice(["simplex", "simplex-dyadic", "zeros"])) if full else []
                 rows.append([None if rng.random() < 0.25 else v for _, v in ws])
-            return {"mode": "backtest", "u": u, "cols": full, "rows": rows, "limit": gen_limit(rng, full), "integer": rng.random() < 0.3}
+            return {"mode": "backtest", "u": u, "cols": full, "rows": rows, "limit": gen_limit(rng, full), "integer": rng.random() < 0.3,
+                    "flow": rng.choice([0.0, 0.0, 250000.0, 1e6, -300000.0])}
         now = rng.randrange(n)
         hold = gen_holdings(rng, u, now)
         keys = [k for k in u["cols"] if rng.random() < 0.7]
@@ -322,7 +323,7 @@ def _ldelta():
         rng.shuffle(keys)
         allk = list(dict.fromkeys(keys + ([h[0] for h in hold[1]] if hold else [])))
         return {"mode": "direct", "u": u, "now": now, "hold": hold, "tw": gen_weights(rng, keys), "series": rng.random() < 0.3,
-                "limit": gen_limit(rng, allk)}
+                "limit": gen_limit(rng, allk), "flow": rng.choice([0.0, 0.0, 0.0, 0.5, 1.0, 3.0, -0.25])}
 
     def ex(bt, c):
         d = c.case
@@ -331,11 +332,20 @@ def _ldelta():
         names = sorted(set(d["u"]["cols"]))
         if d["mode"] == "direct":
             s, _ = make_strategy(bt, d["u"], d["now"], holdings=d["hold"])
-            cur = [(k, float(ch.weight)) for k, ch in s.children.items()]
             before = [(k, float(v)) for k, v in d["tw"]]
             s.temp["weights"] = as_temp(d["series"], before)
+            if d.get("flow"):
+                # a contribution / withdrawal booked earlier in the same stack (what CapitalFlow does): the tree is stale when LimitDeltas
+                # runs and nobody has read a weight since; the weights it limits against are those the strategy holds NOW
+                try:
+                    v0 = float(s.value)
+                    s.adjust(d["flow"] * v0)
+                    c.tags.append("ldelta:flow-before-call")
+                except Exception:
+                    pass
             ret = bt.algos.LimitDeltas(limit)(s)
             after = items_of(s.temp["weights"])
+            cur = [(k, float(ch.weight)) for k, ch in s.children.items()]      # read AFTER the call (a read refreshes the tree)
             if ret is not True:
                 viol(c, "limitDeltas-return", "returned %r" % (ret,))
             steps = [(cur, before, after)]
@@ -349,13 +359,17 @@ def _ldelta():
 
                 def __call__(self, target):
                     if self.tag == 0:
-                        log.append([[(k, float(ch.weight)) for k, ch in target.children.items()], items_of(target.temp["weights"]), None])
+                        log.append([None, items_of(target.temp["weights"]), None])
                     else:
                         log[-1][2] = items_of(target.temp["weights"])
+                        log[-1][0] = [(k, float(ch.weight)) for k, ch in target.children.items()]   # read after the call: reads refresh
                     return True
             frame = pd.DataFrame([[np.nan if v is None else v for v in r] for r in d["rows"]], index=pd.DatetimeIndex(d["u"]["dates"]),
                                  columns=d["cols"], dtype=float)
-            st = bt.Strategy("s", [bt.algos.WeighTarget(frame), Rec(0), bt.algos.LimitDeltas(limit), Rec(1), bt.algos.Rebalance()])
+            head = [bt.algos.CapitalFlow(d["flow"])] if d.get("flow") else []
+            if head:
+                c.tags.append("ldelta:CapitalFlow-in-stack")
+            st = bt.Strategy("s", head + [bt.algos.WeighTarget(frame), Rec(0), bt.algos.LimitDeltas(limit), Rec(1), bt.algos.Rebalance()])
             t = bt.Backtest(st, frame_of(d["u"]), initial_capital=1e6, integer_positions=d["integer"], progress_bar=False)
             try:
                 t.run()
